@@ -837,31 +837,22 @@ theorem findNewline_docEnd : ∀ (l rest : Text), NoLF l → DocEnd l rest →
     | none => rw [hf] at this; simp at this ⊢; omega
     | some k => rw [hf] at this; simp at this ⊢; omega
 
-/-- `scan_grammar_doc_inner` / `scan_rule_doc_inner` on a doc line and what follows it -/
-theorem sp_docInner' {l rest : Text} (h : NoLF l) (hd : DocEnd l rest) :
-    Sp docInner (l ++ rest) () rest [(.commentText, l)] := by
+theorem docEnd_head {l rest : Text} (hd : DocEnd l rest) :
+    rest.head? ≠ some 32 ∧ rest.head? ≠ some 9 := by
+  rcases hd with rfl | ⟨r, rfl, _⟩ | ⟨r, rfl⟩ <;> simp
+
+/-- `scan_grammar_doc_inner` / `scan_rule_doc_inner` on the optional blank, a doc line and what
+    follows it: the blank belongs to the marker, the line is the token -/
+theorem sp_docInner' {sp l rest : Text} (hsp : DocSp sp l) (h : NoLF l) (hd : DocEnd l rest) :
+    Sp docInner (sp ++ (l ++ rest)) () rest [(.commentText, l)] := by
   intro s hs
-  have key : ∃ n, docInner s = .ok () ((s.adv n).emit .commentText (s.rest.take n)) ∧
-      n = l.length := by
-    cases l with
-    | nil =>
-      refine ⟨0, ?_, rfl⟩
-      simp only [List.nil_append] at hs
-      rcases hd with rfl | ⟨r, rfl, _⟩ | ⟨r, rfl⟩ <;> simp [docInner, hs, findNewline]
-    | cons c r =>
-      simp only [List.cons_append] at hs
-      by_cases hc : (c == 32 || c == 9) = true
-      · refine ⟨1 + r.length, ?_, by simp; omega⟩
-        have := findNewline_docEnd r rest (fun d hd' => h d (by simp [hd'])) (docEnd_tail hd)
-        simp [docInner, hs, hc, this]
-      · refine ⟨0 + (r.length + 1), ?_, by simp⟩
-        have := findNewline_docEnd (c :: r) rest h hd
-        simp only [List.cons_append, List.length_cons] at this
-        rw [show r.length + 1 + rest.length = r.length + rest.length + 1 by omega] at this
-        simp [docInner, hs, hc, this]
-  obtain ⟨n, e, hn⟩ := key
-  subst hn
-  exact ⟨_, e, by simp [hs], by simp [hs]⟩
+  obtain ⟨hr, ho⟩ := docBlank_sp hsp (docEnd_head hd) hs
+  have hf := findNewline_docEnd l rest h hd
+  refine ⟨((docBlank s).adv l.length).emit .commentText ((docBlank s).rest.take l.length), ?_, ?_, ?_⟩
+  · unfold docInner
+    simp only [hr, List.length_append, hf]
+  · simp [hr]
+  · simp [hr, ho]
 
 /-! ### the end of the text: trivia, then possibly a line comment without its line break -/
 
